@@ -66,8 +66,10 @@ Print Assumptions C12_panic_before_write_gets_500.
    below 400: the client receives status s and the concatenated chunks, ungarbled, the header
    committed exactly once — for every subset of the directives — provided
    (a) templates does not buffer the response, and not (`errors visible` and err), or
-   (b) templates buffers it (extension / content type), the handler returned < 300 without
-       error and the body is not a template action.
+   (b) templates buffers it (extension / content type), the handler returned no error and,
+       when it returned < 300 (so that templates executes the body), the body is not a
+       template action. A buffered response whose handler returned 300..399 (browse's
+       redirect) is passed on unchanged.
    The excluded combinations are false of the code: see the _refuted theorems. *)
 Theorem C12_written_response_unaltered_partial :
   forall et c path ae sets s bs ret err,
@@ -75,8 +77,8 @@ Theorem C12_written_response_unaltered_partial :
   valid_code s = true -> bodyless s = false ->
   (should_buffer (tmode_of c path) (hs_fun sets []) = false /\ ret < 400 /\
    (err = false \/ eff_errors c <> EDebug)) \/
-  (should_buffer (tmode_of c path) (hs_fun sets []) = true /\ ret < 300 /\ err = false /\
-   contains (concat bs) TPL_OPEN = false) ->
+  (should_buffer (tmode_of c path) (hs_fun sets []) = true /\ ret < 400 /\ err = false /\
+   (ret < 300 -> contains (concat bs) TPL_OPEN = false)) ->
   let x := serve et c path ae (sets ++ OWh s :: map OWr bs) ret err in
   cm x = Some s /\ sup x = 0%nat /\ view x = (false, concat bs).
 Proof.
@@ -91,24 +93,27 @@ Example C12_written_response_unaltered_partial_nonvacuous :
               c_errors := EPlain; c_status := None; c_mime := false; c_templates := true |} in
   should_buffer (tmode_of c (bs "/x.html")) (hs_fun [] []) = true /\
   contains (concat [bs "he"; bs "llo"]) TPL_OPEN = false /\
-  let x := serve (fun _ => []) c (bs "/x.html") true ([] ++ OWh 404 :: map OWr [bs "he"; bs "llo"]) 0 false in
-  cm x = Some 404 /\ view x = (false, bs "hello").
+  (let x := serve (fun _ => []) c (bs "/x.html") true ([] ++ OWh 404 :: map OWr [bs "he"; bs "llo"]) 0 false in
+   cm x = Some 404 /\ view x = (false, bs "hello")) /\
+  (* browse's redirect behind templates (DESIGN A17) *)
+  (let x := serve (fun _ => []) c (bs "/x.html") true ([] ++ OWh 301 :: map OWr [bs "Moved"]) 301 false in
+   cm x = Some 301 /\ view x = (false, bs "Moved")).
 Proof. vm_compute. repeat split; reflexivity. Qed.
 
-(* The unrestricted clause is false (DESIGN A17): templates buffers a redirect written by the
-   inner handler, the handler returns 301 as browse does, the buffered response is dropped and
-   the client receives 200 with an empty body. *)
+(* The unrestricted clause is false: templates buffers a response written by the inner
+   handler, the handler returns (0, err), the buffered response is dropped and the client
+   receives 200 with an empty body. *)
 Theorem C12_written_response_unaltered_refuted :
-  exists et c path ae sets s bs ret,
+  exists et c path ae sets s bs ret err,
   forallb set_ok sets = true /\ status_rule c path = None /\ valid_code s = true /\ bodyless s = false /\
   ret < 400 /\
-  let x := serve et c path ae (sets ++ OWh s :: map OWr bs) ret false in
-  cm x = Some 200 /\ s = 301 /\ view x = (false, []) /\ concat bs <> [].
+  let x := serve et c path ae (sets ++ OWh s :: map OWr bs) ret err in
+  cm x = Some 200 /\ s = 404 /\ view x = (false, []) /\ concat bs <> [].
 Proof.
   exists (fun _ => []),
     {| c_reqid := false; c_limits := false; c_log := false; c_rewrite := false; c_gzip := false; c_header := false;
        c_errors := ENone; c_status := None; c_mime := false; c_templates := true |},
-    (bs "/dir"), false, [OSet K_CT V_HTML], 301, [bs "Moved"], 301.
+    (bs "/x.html"), false, [], 404, [bs "custom not found"], 0, true.
   vm_compute. repeat split; try reflexivity; try discriminate.
 Qed.
 Print Assumptions C12_written_response_unaltered_refuted.
